@@ -230,7 +230,10 @@ func driveNonce(c *ctx) {
 					err  error
 				)
 				rd := &scriptedReader{data: append(append([]byte{}, ent...), bytes.Repeat([]byte{0xEE}, 64)...), steps: whole}
-				if pn := catch(func() { r, s, v, err = secec.VerifSplitKey(scFrom(d), pub).SignRaw(rd, digests[ei]) }); pn || err != nil {
+				if !deep {
+					continue
+				}
+				if pn := catch(func() { r, s, v, err = deepSplitKey(scFrom(d), pub).SignRaw(rd, digests[ei]) }); pn || err != nil {
 					continue
 				}
 				c.E("sig.Raw", "d", h32(d), "digest", hx(digests[ei]), "rng", "reader", "reads", rawJSON(readsToJSON(rd.log)), "entropy", hx(ent),
@@ -242,7 +245,11 @@ func driveNonce(c *ctx) {
 
 	// ---- rejection sampler on scripted candidate streams (deep)
 	zero := make([]byte, 32)
-	ge := [][]byte{be32(bigN)[:], be32(add(bigN, 1))[:], be32(add(big2_256, -1))[:]}
+	ge := [][]byte{be32(bigN)[:], be32(add(bigN, 1))[:], be32(add(big2_256, -1))[:],
+		be32(new(big.Int).Sub(big2_256, pow2(64)))[:], be32(new(big.Int).Sub(big2_256, pow2(128)))[:], be32(new(big.Int).Add(bigN, pow2(100)))[:]}
+	for i := 0; i < 6; i++ { // anywhere in [n, 2^256): most of these have lower limbs BELOW n's
+		ge = append(ge, be32(new(big.Int).Add(bigN, randBig(rng, new(big.Int).Sub(big2_256, bigN))))[:])
+	}
 	valid := [][]byte{be32(big.NewInt(1))[:], be32(add(bigN, -1))[:], be32(randBig(rng, bigN))[:], be32(randBig(rng, bigN))[:]}
 	pick := func(cls int) []byte {
 		switch cls {
@@ -255,6 +262,9 @@ func driveNonce(c *ctx) {
 		}
 	}
 	sample := func(stream [][]byte, tailBytes int) {
+		if !deep {
+			return
+		}
 		var buf []byte
 		hs := make([]string, 0, len(stream))
 		for _, s := range stream {
@@ -263,7 +273,7 @@ func driveNonce(c *ctx) {
 		}
 		buf = append(buf, randBytes(rng, tailBytes)...) // a partial trailing candidate (must be an entropy failure if reached)
 		rd := bytes.NewReader(buf)
-		s, err := secec.VerifSampleRandomScalar(rd)
+		s, err := deepSampleRandomScalar(rd)
 		kind := ""
 		if err != nil {
 			if strings.Contains(err.Error(), "rejection") {
@@ -313,7 +323,10 @@ func driveNonce(c *ctx) {
 
 	// ---- RFC 6979 generator (deep): successive reads equal the RFC's candidate sequence
 	drbg := func(x, e *big.Int, reads int, vector bool) {
-		rd := secec.VerifNewDrbgRFC6979(scFrom(x), scFrom(e))
+		if !deep {
+			return
+		}
+		rd := deepNewDrbgRFC6979(scFrom(x), scFrom(e))
 		outs := make([]string, reads)
 		for i := range outs {
 			var b [32]byte
@@ -355,8 +368,10 @@ func driveNonce(c *ctx) {
 				x = big.NewInt(1)
 			}
 			h := sha256Sum([]byte(parts[1]))
-			e, _ := secec.VerifHashToScalar(h)
-			drbg(x, new(big.Int).SetBytes(e.Bytes()), 3, true)
+			if deep {
+				e, _ := deepHashToScalar(h)
+				drbg(x, new(big.Int).SetBytes(e.Bytes()), 3, true)
+			}
 			priv := privFrom(x)
 			r, s, v, err := priv.SignRaw(secec.RFC6979SHA256(), h)
 			c.E("sig.Raw", "d", h32(x), "digest", hx(h), "rng", "rfc6979", "ok", err == nil, "r", scHexOr(r), "s", scHexOr(s), "v", int(v))
